@@ -169,8 +169,10 @@ class Instance:
             raise ValueError(kind)
 
 
+POW_EXP = {"pow-2": -2, "pow3": 3, "pow10": 10, "pow0.5f32": np.float32(0.5)}
 ENTRY = {
-    "Kronecker": ["matvec", "matmat", "rmatvec", "inv", "solve", "logdet", "slogdet", "diag", "trace", "sqrt", "isqrt", "pow2.5", "pow-1", "cholesky", "plu"],
+    "Kronecker": ["matvec", "matmat", "rmatvec", "inv", "solve", "logdet", "slogdet", "diag", "trace", "sqrt", "isqrt", "pow2.5", "pow-1", "cholesky", "plu",
+                  "pow-2", "pow3", "pow10", "pow0.5f32"],  # integer-typed exponents on both sides of the generic shortcuts (-1..9), NumPy scalars
     "KronSum": ["matvec", "matmat", "exp", "diag", "trace"],
     "BlockDiag": ["matvec", "matmat", "inv", "solve", "logdet", "diag", "trace", "sqrt", "exp", "log", "apply_unary", "cholesky", "plu", "pow2.5"],
     "Diagonal": ["matvec", "matmat", "inv", "logdet", "diag", "trace", "exp", "sqrt", "cholesky", "plu", "pow2.5"],
@@ -184,7 +186,8 @@ ENTRY = {
 }
 ALG_VARIANTS = {"inv": ["omitted", "Auto", "LU", "Cholesky"], "solve": ["omitted", "Auto"], "logdet": ["omitted", "Auto", "LU"], "slogdet": ["omitted", "Auto"],
                 "diag": ["omitted", "Exact"], "trace": ["omitted", "Exact"], "sqrt": ["omitted", "Auto", "Eigh"], "isqrt": ["omitted", "Eigh"],
-                "pow2.5": ["omitted", "Auto", "Eigh"], "pow-1": ["omitted", "Auto"], "exp": ["omitted", "Auto", "Eigh"], "log": ["omitted", "Eigh"],
+                "pow2.5": ["omitted", "Auto", "Eigh"], "pow-1": ["omitted", "Auto"], "pow-2": ["omitted", "Eigh"], "pow3": ["omitted"], "pow10": ["omitted", "Eigh"],
+                "pow0.5f32": ["omitted", "Eigh"], "exp": ["omitted", "Auto", "Eigh"], "log": ["omitted", "Eigh"],
                 "apply_unary": ["omitted", "Eigh"]}
 
 
@@ -249,6 +252,8 @@ def run_case(ctx, case):
             return act(L.isqrt(A, *al))
         if e == "pow2.5":
             return act(L.pow(A, 2.5, *al))
+        if e in POW_EXP:
+            return act(L.pow(A, POW_EXP[e], *al))
         if e == "pow-1":
             return act(L.pow(A, -1, *al))
         if e == "exp":
@@ -375,7 +380,7 @@ def verify(case, inst, e, out, x, X):
             d = np.ones(n)
         return close(out, d if e == "diag" else d.sum())
     f = {"sqrt": lambda F: fpow(F, 0.5), "isqrt": lambda F: fpow(F, -0.5), "pow2.5": lambda F: fpow(F, 2.5), "exp": sla.expm, "log": sla.logm,
-         "apply_unary": sla.cosm}[e]
+         "apply_unary": sla.cosm, **{k: (lambda F, a=float(v): fpow(F, a)) for k, v in POW_EXP.items()}}[e]
     if kind == "Kronecker":
         return close(out, kron_mv([f(F) for F in Fs], x[:, None])[:, 0])
     if kind == "KronSum":
